@@ -44,6 +44,8 @@ def shape_keys(r, shape):
     if shape == "layer_two_level":
         pre = b"prefix__"
         return [b"a", b"z"] + [pre + b"s%02d" % i for i in range(20)]
+    if shape == "eight":         # keys of exactly 8 bytes (the longest key that is stored in the slot itself)
+        return [b"key%05d" % i for i in range(r.choice([3, 12, 20]))]
     if shape == "sparse":        # borders with one entry (the next remove unlinks a node)
         return [b"k%02d" % i for i in range(32)]
     return []
@@ -651,7 +653,7 @@ def make_workload(seed, kind, shape=None):
         return make_epoch_workload(seed)
     r = random.Random("%s/%d" % (kind, seed))
     shapes = ["empty", "single", "full", "two_level", "layers", "sparse", "three_level", "deep_layers",
-              "layer_full", "layer_single", "layer_two_level"]
+              "layer_full", "layer_single", "layer_two_level", "eight", "eight"]
     if shape is None:
         shape = r.choice(shapes)
     keys = shape_keys(r, shape)
